@@ -3,6 +3,8 @@
   Model: Model/Proto/Mesh.lean (bus, xbus, star, xstar); loop-free topologies: Model/Proto/MeshLemmas.lean (Forest).
 -/
 import Model.Proto.MeshLemmas
+import Model.Proto.MeshQuiet
+import Model.Proto.MeshOrder
 import Model.Proto.CommonLemmas
 namespace Props.C08
 open Model Model.Proto
@@ -74,5 +76,20 @@ theorem fwd_is_others (ps : List OutPipe) (src : Nat) :
   rfl
 
 example : Forest.flood [2, 3] 1 (.cons 2 (.cons 4 .nil .nil) (.cons 3 .nil .nil)) = [2, 4, 3] := by decide
+
+/-- over every history of a BUS or STAR socket (cooked or raw; any interleaving of sends, arrivals from any peers, slow
+    and failing peers, queue re-creations, Close): nothing is left to do in any reachable state — a Recv is blocked only
+    when no message is queued, none is held by a receiver and none is waiting to be read from any peer ("delivered …
+    queue space permitting": what has arrived is handed to a waiting Recv at once) -/
+theorem recv_blocks_only_when_nothing_is_there (f : Mesh.Flavor) (g : GExpr) (s : Mesh.State) (h : Mesh.Reach f g s)
+    (hne : s.waiting ≠ []) : s.recvQ = [] ∧ s.blocked = [] ∧ s.backlog = [] :=
+  Mesh.recv_blocks_only_when_nothing_is_there f g s h hne
+
+/-- "delivered once to each directly connected peer": over every history of a BUS or STAR socket, for every peer, the
+    copies handed to its pipe — completed, in progress, queued — are, in order, part of what was offered to that pipe
+    (by Sends and, for STAR, by forwarding): never duplicated, never reordered (ghost histories `offered` / `sent`) -/
+theorem per_peer_order (f : Mesh.Flavor) (g : GExpr) (s : Mesh.State) (h : Mesh.Reach f g s) :
+    ∀ p ∈ s.pipes, (p.sent ++ p.inflight.toList ++ p.q).Sublist p.offered :=
+  Mesh.per_peer_order f g s h
 
 end Props.C08
